@@ -73,7 +73,7 @@ rx("m10a", "C10", "internals/Issues.go", r'if path == "" \{', 'if path == "." {'
 rx("m10b", "C10", "internals/Issues.go", r"\t\ts\.M\[zconst\.ISSUE_KEY_FIRST\] = \[\]\*ZogIssue\{err\}\n\t\}", "\t}\n\ts.M[zconst.ISSUE_KEY_FIRST] = []*ZogIssue{err}", "add-shape")
 rx("m10c", "C10", "internals/DataProviders.go", r"(\tif tag != nil \{\n(?s:.*?)\n\t\}\n)(\tfieldTag, ok := field\.Tag\.Lookup\(zconst\.ZogTag\)\n\tif ok \{\n\t\treturn fieldTag\n\t\}\n)", "${2}${1}", "tag-priority")
 rx("m10d", "C10", "internals/contexts.go", r"(\tif test\.IssueFmtFunc != nil \{\n\t\ttest\.IssueFmtFunc\(e, c\)\n\t\}\n)(\tif test\.IssuePath != \"\" \{\n\t\te\.Path = test\.IssuePath\n\t\}\n)", "${2}${1}", "issuepath-last")
-rx("m10g", "C10", "internals/PathBuilder.go", r" && v\[0\] != '\['", "", "path-render", "a '.' is written before slice positions: a.[0]")
+rx("m10g", "C10", "internals/PathBuilder.go", r" && \(len\(v\) == 0 \|\| v\[0\] != '\['\)", "", "path-render", "a '.' is written before slice positions: a.[0]")
 rx("m10h", "C10", "internals/PathBuilder.go", r'\(\*p\)\[i-1\] != ""', '(*p)[i-1] == ""', "path-render", "separator logic inverted")
 rx("m10e", "C10", "zhttp/zhttp.go", r"form\(r\.URL\.Query\(\), &queryParam\)", "form(r.URL.Query(), &formTag)", "provider-tag-table")
 rx("m10f", "C10", "struct.go", r"fieldMeta\.Tag\.Lookup\(zconst\.ZogTag\)", 'fieldMeta.Tag.Lookup("json")', "segment-source")
